@@ -72,4 +72,22 @@ mod verif_std_conv_addr {
         assert!(back.is_ok());
         assert!(back.unwrap() == a);
     }
+
+    /// bounded (ip field of at most 20 bytes, every content, port any u32 or absent): decoding a SocketAddr never panics.
+    /// Lengths 0..=20 cover both accepted lengths (4, 16), their neighbours and the rejecting arm.
+    #[kani::proof]
+    #[kani::unwind(22)]
+    #[kani::stub(std::backtrace::Backtrace::capture, no_backtrace)]
+    fn socket_addr_read_total() {
+        let buf: [u8; 20] = kani::any();
+        let n: usize = kani::any();
+        kani::assume(n <= 20);
+        let ip: Option<Vec<u8>> = if kani::any() { Some(buf[..n].to_vec()) } else { None };
+        let port: Option<u32> = if kani::any() { Some(kani::any()) } else { None };
+        let r = proto::std::SocketAddr { ip, port };
+        let res = <std::net::SocketAddr as ProtoFmt>::read(&r);
+        kani::cover!(res.is_ok());
+        kani::cover!(res.is_err());
+        std::mem::forget(res);
+    }
 }
